@@ -1,18 +1,23 @@
 ----------------------------- MODULE CmdLine_MC -----------------------------
 (* (M) Exhaustive check of the option layer: every sequence of <= MaxOcc occurrence templates of program Prog      *)
-(* (Alphabet = "all" | "core"), in every placement of CmdLineCases (command line, file first or last, environment   *)
-(* variable, key file from the command line / from the variable / one line, split environment | command line, one    *)
-(* occurrence moved into a key file in place).                                                                      *)
+(* (Alphabet = "all" | "core"), in every placement of CmdLineCases: command line with the file arguments first or    *)
+(* last, environment variable, key file named on the command line / in the variable (one occurrence per line, after  *)
+(* a remark and an empty line), key file of one line with blanks / with tabs / with a tab and then blanks, split      *)
+(* environment | command line at every position, every single occurrence moved into a key file in place.             *)
 (*   ScanIsFold          the scanner without the named deviations computes Spec = Meaning(Parse(Flatten(I))) on      *)
-(*                       every input the manual decides (Specified)                                                  *)
-(*   PlaceNeverMatters   the scanner AS CODED gives equal results for any two placements of a sequence that parse    *)
-(*                       to the same occurrences (C17: the place an option is given never alters the outcome)        *)
-(*   EnvBeforeArgv       as coded: moving the occurrences from the command line into the environment variable in     *)
-(*                       front of a sequence is the same as writing them first                                        *)
+(*                       every input the manual decides (not Open)                                                   *)
+(*   DeviationsAreNamed  wherever the scanner AS CODED differs from Spec, one of the named deviations is live         *)
+(*   PlaceNeverMatters   the scanner as coded gives equal results for any two placements of a sequence that parse    *)
+(*                       to the same occurrences (C17: the place an option is given never alters the outcome);       *)
+(*                       the deviations ToolFilesArgv, EmptyNumberOK, BlankBeforeTab are place-sensitive by nature    *)
+(*                       and are taken out (NoFileDev)                                                               *)
+(*   EnvBeforeArgv       as coded: moving the leading occurrences of a command line into the environment variable     *)
+(*                       changes nothing                                                                             *)
 (*   ErrorIsFinal        a parameter error leaves nothing to run (status 4 / 1, no outputs)                          *)
-(*   DeviationsAreNamed  wherever the scanner as coded differs from Spec, one of the named deviations is live         *)
+(* Measured (4 workers): asl all 42 templates <= 2: 1 807 states 7 s; <= 3: 75 895 states 4 min; asl core 14          *)
+(* templates <= 4: 41 371 states 3.5 min; p2bin 21 templates <= 3: 9 724 states; plist 10 templates <= 4: 11 111.     *)
 (* CmdLine_MC_Coded.cfg (invariant CodedIsFold, expected to FAIL) shows that the deviations are observable inside     *)
-(* the bound: TLC reports e.g. -q -q +q, -D A -D A=2, -i p1 +i p2.                                                    *)
+(* the bound: TLC reports e.g. -q -D A in a key file line `-q<TAB>-D A`, -q -q +q, -D A -D A=2, -i p1 +i p2.            *)
 EXTENDS CmdLineCases
 
 CONSTANTS Prog, MaxOcc, Alphabet
@@ -25,12 +30,12 @@ Next == /\ Len(seq) < MaxOcc
 SpecMC == Init /\ [][Next]_seq
 
 Inputs == {Place(Prog, seq, pl) : pl \in Placements(Len(seq))}
-NoFileDev == Devs \ {"ToolFilesArgv", "EmptyNumberOK"}       \* these two make the place matter (utilities only)
+NoFileDev == Devs \ {"ToolFilesArgv", "EmptyNumberOK", "BlankBeforeTab"}       \* these make the place matter
 \* everything the invariants need about one input, computed once
 Facts(I) == LET it == Items(Prog, I)
                 sd == Scan(Prog, I, Devs)
             IN [I |-> I, it |-> it, open |-> Open(Prog, it), sp |-> Meaning(Prog, it), s0 |-> Scan(Prog, I, {}), sd |-> sd,
-                sn |-> IF Prog = "asl" THEN sd ELSE Scan(Prog, I, NoFileDev)]
+                sn |-> IF Prog = "asl" /\ ~HasTab(I) THEN sd ELSE Scan(Prog, I, NoFileDev)]    \* asl: only the tab rule is place-sensitive
 AllFacts == {Facts(I) : I \in Inputs}
 
 ScanIsFold  == \A f \in AllFacts : ~f.open => f.s0 = f.sp
